@@ -30,6 +30,8 @@ METRICS = {
     "mean_squared_scaled_error": dict(elem="sq", agg="mean", scaled=True, sqrt=True),
     "median_squared_scaled_error": dict(elem="sq", agg="median", scaled=True, sqrt=True),
     "relative_loss": dict(elem="abs", agg="mean", bench=True, ratio=True),
+    # the same ratio for a loss function that is not symmetric in (truth, forecast)
+    "relative_loss[asymmetric-loss]": dict(elem="asym", agg="mean", bench=True, ratio=True, fn="relative_loss", relfn=True),
 }
 
 
@@ -370,9 +372,12 @@ class C06(Harness):
         if spec.get("scaled"):
             args.append(self._arr(W, ytr or inp["ytr"]))
             kw["sp"] = inp.get("sp", 1)
-        if spec["elem"] == "asym":
-            kw.update(asymmetric_threshold=inp.get("thr", 0), left_error_function=inp.get("left", "squared"), right_error_function=inp.get("right", "absolute"))
-        return getattr(F, name)(*args, **kw)
+        asym = dict(asymmetric_threshold=inp.get("thr", 0), left_error_function=inp.get("left", "squared"), right_error_function=inp.get("right", "absolute"))
+        if spec.get("relfn"):
+            kw["relative_loss_function"] = lambda a, b, horizon_weight=None, multioutput="uniform_average": F.mean_asymmetric_error(a, b, horizon_weight=horizon_weight, multioutput=multioutput, **asym)
+        elif spec["elem"] == "asym":
+            kw.update(asym)
+        return getattr(F, spec.get("fn", name))(*args, **kw)
 
     @staticmethod
     def _val(r):
